@@ -1275,7 +1275,12 @@ class Interp:
                 return AtIdx(v.arr, idx)
             if isinstance(v, dict):
                 return v[idx]
-            if isinstance(v, (tuple, list, str)):
+            if isinstance(v, (tuple, list, str, bytes)):
+                if isinstance(idx, slice):
+                    c_ = lambda x: int(x.constval()) if isinstance(x, Rat) else (int(x) if isinstance(x, np.integer) else x)
+                    idx = slice(c_(idx.start), c_(idx.stop), c_(idx.step))
+                elif isinstance(idx, np.integer):
+                    idx = int(idx)
                 return v[idx]
             if isinstance(v, Struct):
                 return self.struct_map(lambda x: asarr(x)[idx], v)
@@ -1576,7 +1581,7 @@ class Interp:
             return ('pybound', join)
         if isinstance(v, (tuple, list)) and a in ('index', 'append', 'count', 'extend'):
             return ('bound', 'seq_' + a, v)
-        if isinstance(v, (list, str, dict, set, range)) and not (isinstance(v, tuple) and v and isinstance(v[0], str) and len(v) == 3) and hasattr(v, a) and callable(getattr(v, a)):
+        if isinstance(v, (list, str, bytes, dict, set, range)) and not (isinstance(v, tuple) and v and isinstance(v[0], str) and len(v) == 3) and hasattr(v, a) and callable(getattr(v, a)):
             return ('pybound', getattr(v, a))
         raise OutOfFragment('attr %s on %s' % (a, type(v).__name__))
 
